@@ -83,6 +83,7 @@ func StartServer(cfg *v1.ServerConfig) (*Server, error) {
 		svc.Run(ctx)
 	}()
 	if err := WaitTCP(net.JoinHostPort(cfg.BindAddr, strconv.Itoa(cfg.BindPort)), 5*time.Second); err != nil {
+		_ = svc.Close()
 		cancel()
 		return nil, err
 	}
@@ -108,10 +109,14 @@ func (s *Server) Addr() string { return net.JoinHostPort(s.Cfg.BindAddr, strconv
 // vhost HTTP listener of frps is not closed by Service.Close (upstream behaviour);
 // the port allocator skips ports that are still bound.
 func (s *Server) Close() {
+	// Service.Run blocks in the accept loop of the control listener (golib's default mux listener is
+	// not woken by Close) and only looks at its context afterwards, so neither cancelling the context
+	// nor Close makes Run return: we close the service and do not wait for Run.
+	_ = s.Svc.Close()
 	s.cancel()
 	select {
 	case <-s.done:
-	case <-time.After(5 * time.Second):
+	case <-time.After(20 * time.Millisecond):
 	}
 }
 
